@@ -255,6 +255,9 @@ def property_fails_on(op, impl):
             else:
                 want = a[3] < b[3]
         return None if (impl == "1") == want else "comparator %s answered %s on %s" % (op.split()[1], impl, " ".join(op.split()[2:]))
+    if op.startswith("latval "):
+        return None if impl == "marshal-ok" else ("a channel whose latency document carries the value %s: the aggregate cannot "
+                                                  "be encoded (%s) - the view answers 500" % (op.split()[1], impl[:120]))
     if op.startswith("lat "):
         # the latency aggregate: whatever shapes the nodes send, decoding and merging must not panic; the aggregate has
         # no nil entry and exactly the distinct quantiles of the non-null entries (recomputed here from the op alone)
@@ -560,7 +563,12 @@ def run(ctx):
         "sufficient: non-negative counters with a sum below 2^63, int64_no_wrap_sufficient). Clusters whose sums leave "
         "the range are generated on purpose and compared against the wrapped sums",
         "Go language semantics of int64 +, -, += (two's complement wrap-around) — the model's wrap64",
-        "float latency aggregates (E2eProcessingLatencyAggregate.Add) are not modelled or compared beyond the nil dereference",
+        "latency aggregates (E2eProcessingLatencyAggregate.UnmarshalJSON / Add): only the SHAPE of the percentiles array is "
+        "modelled and compared (Model/Latency, stream `latency`); the float values are not (open finding view:latency-overflow-500)",
+        "view_no_panic speaks about Fixes.all = /repo + fixes/F53 + fixes/F54; until those are committed the two defects are "
+        "open known findings replayed on every run",
+        "sort.Sort returns a sorted permutation when Less is a strict weak order (library contract; order_by_host proves the "
+        "by-hostname comparators are, order_clients_by_topology that ClientStatsByNodeTopology.Less is not)",
         "the per-node channel lists nested inside /api/topics/:t `nodes[]` are not compared (they alias the merged channel objects)",
     ]
     ctx.rule = ("correspondence: generated clusters (1-3 nsqlookupd, 1-4 nsqd, topics on some nodes only, same channel on many "
@@ -636,7 +644,7 @@ def run(ctx):
             kinds = {}
             for o, i in zip(ops, impl):
                 ctx.count_case(o, nontrivial=(i.startswith("200 ") and not i.endswith(" -")) or o.startswith("getv1")
-                               or o.startswith("lat ") or o.startswith("less "))
+                               or o.startswith("lat") or o.startswith("less "))
                 k = o.split()[1] + ":" + i.split()[0]
                 kinds[k] = kinds.get(k, 0) + 1
             ctx.corr.setdefault("outcomes", {})[name] = kinds
@@ -651,6 +659,8 @@ def run(ctx):
                     key = "view:%s:%s" % (req_key(o), i.split()[0])
                     if o.startswith("getv1"):
                         key = "getv1:" + o.split()[2]
+                    if o.startswith("latval "):
+                        key = "view:latency-overflow-500"
                     if o.startswith("less "):
                         key = "order:comparator:" + o.split()[1]
                     if o.startswith("lat "):
